@@ -34,6 +34,9 @@ type Step struct {
 	// held a long variable and a function that are gone by now (the user saves,
 	// removes definitions, saves again): the file must hold the second save only.
 	Again bool `json:"again,omitempty"`
+	// Bind (snapshot): a further printer variable binding around the call, e.g.
+	// "(*print-base* 16)": the saved text does not depend on it.
+	Bind string `json:"bind,omitempty"`
 }
 
 // Out is what a step produced.
@@ -114,7 +117,7 @@ func doStep(scope *slip.Scope, st Step) (out Out) {
 				return
 			}
 		}
-		_, err := evalForms(scope, fmt.Sprintf("(let ((*print-right-margin* %d)) (snapshot %q))", st.Margin, st.Path))
+		_, err := evalForms(scope, fmt.Sprintf("(let ((*print-right-margin* %d) %s) (snapshot %q))", st.Margin, st.Bind, st.Path))
 		if err != nil {
 			out.Err = err
 			return
